@@ -318,6 +318,10 @@ class _ListDict_(object):
         if self.weighted:
             weight = self.weight.pop(choice)
             self._total_weight -= weight
+            if self._total_weight < 10**(-7) and self._total_weight != 0:
+                #floating point residue: recompute so that an empty (or 
+                #all-zero) set has total weight exactly 0.
+                self.update_total_weight()
             if weight == self.max_weight:  
                 #if we find ourselves in this case often
                 #it may be better just to let max_weight be the
